@@ -1469,6 +1469,9 @@ namespace link_layer {
         this->reset_encryption();
         this->reset_phy( *this );
 
+        // releases resources of the GATT server, that are allocated to the client (write queue)
+        this->client_disconnected( connection_data_ );
+
         if ( state_ != state::connecting )
         {
             this->synchronized_connection_event_callback_disconnect();
